@@ -111,7 +111,6 @@ class Engine:
         self.dec_labels = []
         self.finding_terms = {}
         self.bvcache = {}
-        self.ct = ListV(z3.IntVal(-999999), Tup(INT, INT, INT))
 
     # deterministic fresh names per path position so re-execution of a prefix yields identical terms
     def fresh(self, name, sort):
@@ -155,7 +154,7 @@ class Engine:
             goal = z3.BoolVal(False)
         n = self.ob_count.get(kind, 0)
         self.ob_count[kind] = n + 1
-        name = "%s/%s#%s" % (self.ob_prefix, kind, text[:90] if text else n)
+        name = "%s/%s#%s" % (self.ob_prefix, kind, text[:160] if text else n)
         ob = Obligation(name, kind, self.pc, goal, text, self.cur_line)
         ob.ghost = dict(self.ghost)
         ob.regions = getattr(self, "finding_terms", None) or {}
@@ -389,23 +388,56 @@ class Engine:
         self.set_ddom(dv, z3.Store(self.ddom(dv), kt, z3.BoolVal(False)))
 
     # ghost trace of the direct calls made by the function under verification --------------------
+    # kept in its own heap keys ('ctlen',) : Int and ('ct', i) : Array(Int, Int) so that appending an event never
+    # touches the arrays of program lists
     def ct_reset(self):
-        self.set_llen(self.ct, z3.IntVal(0))
+        self.heap[("ctlen",)] = z3.IntVal(0)
+        for i in range(4):
+            self.heap[("ct", i)] = z3.K(z3.IntSort(), z3.IntVal(0))
 
-    def ct_append(self, name, recv=None, arg=None):
-        from . import builtins_ as B
+    def ct_length(self):
+        return self.heap[("ctlen",)]
 
+    def ct_get(self, k):
+        return tuple(Sym(z3.simplify(z3.Select(self.heap[("ct", i)], k)), "int") for i in range(4))
+
+    def ct_append(self, name, recv=None, arg=None, res=None):
+        """event (callee code, receiver, first argument, result); result is 1/0 for a truthy/falsy return of a
+        bool-returning callee, 0 otherwise.  Returns the fresh result slot so the caller can bind it."""
         def ref_of(v):
             if isinstance(v, (RefV, ListV, DictV, ExtV)):
-                return Sym(v.t, "int")
+                return v.t
             if isinstance(v, Sym) and v.k == "int":
-                return v
+                return v.t
             if isinstance(v, bool):
-                return int(v)
+                return z3.IntVal(int(v))
             if isinstance(v, int):
-                return v
-            return 0
-        B.list_method(self, self.ct, "append", [(call_code(name), ref_of(recv), ref_of(arg))], {})
+                return z3.IntVal(v)
+            return z3.IntVal(0)
+        slot = Sym(self.fresh("ct_res", z3.IntSort()), "int") if res is None else res
+        n = self.heap[("ctlen",)]
+        vals = [z3.IntVal(call_code(name)), ref_of(recv), ref_of(arg), slot.t]
+        for i in range(4):
+            self.heap[("ct", i)] = z3.Store(self.heap[("ct", i)], n, vals[i])
+            self.note_write(("ct", i), None)
+        self.heap[("ctlen",)] = z3.simplify(n + 1)
+        self.note_write(("ctlen",), None)
+        return slot
+
+    def ct_bind_result(self, slot, value):
+        """record the callee's return value in the event's result slot"""
+        if not isinstance(slot, Sym):
+            return
+        if isinstance(value, bool):
+            self.assume(slot.t == (1 if value else 0))
+        elif isinstance(value, Sym) and value.k == "bool":
+            self.assume(slot.t == z3.If(value.t, 1, 0))
+        elif isinstance(value, OptV) and isinstance(value.val, Sym) and value.val.k == "bool":
+            self.assume(slot.t == z3.If(z3.And(z3.Not(value.isnone), value.val.t), 1, 0))
+        elif isinstance(value, (RefV, ListV)):
+            self.assume(slot.t == value.t)
+        elif value is None:
+            self.assume(slot.t == 0)
 
     # loop write tracking -----------------------------------------------------
     def note_write(self, key, ref_t):
